@@ -370,3 +370,40 @@ def forin_cases(rng, n):
         ss.append(p.emit([p.str("end"), p.id("cnt")]))
         out.append((p, p.block(ss)))
     return out
+
+
+def fresh_local_cases():
+    """a local declared WITHOUT an initialiser is nil every time its declaration executes: first statement
+    of every loop body form / after a label jumped back to, next to other nil-initialised locals"""
+    out = []
+    for loop, ndecl, pre, depth in itertools.product(["while", "repeat", "fornum", "forin", "goto", "nested_repeat", "repeat_in_func"], [1, 2, 3], ["none", "nil_local", "two_nil_locals", "value_local"], [0, 1]):
+        p = Prog()
+        names = ["v%d" % i for i in range(ndecl)]
+        decl = lambda: p.local(names, [])
+        see = lambda: p.emit([p.str("fresh")] + [p.id(n) for n in names])
+        setv = lambda: p.assign([p.id(n) for n in names], [p.bin("+", p.id("i"), p.num(10 * (k + 1))) for k, n in enumerate(names)])
+        prelude = {"none": [], "nil_local": [p.local(["acc"], [])], "two_nil_locals": [p.local(["acc"], []), p.local(["acc2"], [])],
+                   "value_local": [p.local(["acc"], [p.num(5)])]}[pre]
+        body = [decl(), see(), setv(), see()]
+        if depth:
+            body = [p.do(p.block(body))] if loop not in ("goto",) else body
+        cnt = [p.assign([p.id("i")], [p.bin("+", p.id("i"), p.num(1))])]
+        if loop == "while":
+            ss = [p.local(["i"], [p.num(0)])] + prelude + [p.while_(p.bin("<", p.id("i"), p.num(3)), p.block(body + cnt))]
+        elif loop == "repeat":
+            ss = [p.local(["i"], [p.num(0)])] + prelude + [p.repeat(p.block(body + cnt), p.bin(">=", p.id("i"), p.num(3)))]
+        elif loop == "nested_repeat":
+            inner = p.repeat(p.block(body + cnt), p.bin(">=", p.bin("%", p.id("i"), p.num(2)), p.num(0)))
+            ss = [p.local(["i"], [p.num(0)])] + prelude + [p.repeat(p.block([p.local(["outer"], []), p.emit([p.str("outer"), p.id("outer")]), p.assign([p.id("outer")], [p.id("i")]), inner]),
+                                                                    p.bin(">=", p.id("i"), p.num(3)))]
+        elif loop == "repeat_in_func":
+            f = p.func([], p.block(prelude + [p.repeat(p.block(body + cnt), p.bin(">=", p.id("i"), p.num(3)))]))
+            ss = [p.local(["i"], [p.num(0)]), p.callstat(p.call(p.paren(f), []))]
+        elif loop == "fornum":
+            ss = prelude + [p.fornum("i", p.num(1), p.num(3), 0, p.block(body))]
+        elif loop == "forin":
+            ss = prelude + [p.forin(["i", "x"], [p.call(p.id("ipairs"), [p.table([("p", p.num(7)), ("p", p.num(8)), ("p", p.num(9))])])], p.block(body))]
+        else:   # goto: the declaration follows a label that is jumped back to
+            ss = [p.local(["i"], [p.num(0)])] + prelude + [p.do(p.block([p.label("top")] + body + cnt + [p.if_([p.bin("<", p.id("i"), p.num(3))], [p.block([p.goto("top")])])]))]
+        out.append((p, p.block(ss)))
+    return out
